@@ -420,6 +420,71 @@ pub fn c15_shadowed_case(rng: &mut Rng, st: &mut Stats) -> CaseOutcome {
     }
 }
 
+/// Look-around text right after a valid configuration that LOOKS the same when printed: pattern P
+/// with Lookahead(+/-, L) is built through the cache first; then the same configuration with that
+/// pattern written as the plain text the crate's own Display gives for it (`P(?=L)` / `P(?!L)`) and no
+/// lookahead. The second one contains look-around syntax and must be rejected by both build paths,
+/// whatever was built before.
+pub fn c15_display_twin_case(rng: &mut Rng, _i: u64, st: &mut Stats) -> CaseOutcome {
+    let mut p = GenParams::varied(rng);
+    p.max_nodes = 6;
+    let cfg = crate::hist::gen_multi_mode(rng, &p, 60, 3);
+    if !cfg.all_res().iter().all(|r| print_parse_roundtrip_ok(r)) {
+        return CaseOutcome::Skipped;
+    }
+    // a pattern with a lookahead
+    let mut site = None;
+    for (mi, m) in cfg.modes.iter().enumerate() {
+        for (pi, pat) in m.pats.iter().enumerate() {
+            if pat.la.is_some() && (site.is_none() || rng.chance(1, 3)) {
+                site = Some((mi, pi));
+            }
+        }
+    }
+    let Some((mi, pi)) = site else { return CaseOutcome::Skipped };
+    let modes = cfg.to_modes();
+    let shown = format!("{}", crate::cfg::pattern_of(&cfg.modes[mi].pats[pi]));
+    if !(shown.contains("(?=") || shown.contains("(?!")) {
+        // the crate prints lookaheads in another way: no look-around text to test with
+        st.count("display_without_look_around_syntax");
+        return CaseOutcome::Skipped;
+    }
+    let mut twin_modes = Vec::new();
+    for (k, m) in cfg.modes.iter().enumerate() {
+        let pats: Vec<scnr::Pattern> = m
+            .pats
+            .iter()
+            .enumerate()
+            .map(|(j, q)| if k == mi && j == pi { scnr::Pattern::new(shown.clone(), q.tt) } else { crate::cfg::pattern_of(q) })
+            .collect();
+        twin_modes.push(scnr::ScannerMode::new(&m.name, pats, m.trans.clone()));
+    }
+    let case = json!({"kind": "c15", "valid_configuration": cfg.describe(), "then_pattern_text": shown, "mode": mi, "pattern": pi});
+    // the valid one first, through the cache
+    match sut(|| scnr::ScannerBuilder::new().add_scanner_modes(&modes).build().map(|_| ()).map_err(|e| e.to_string())) {
+        Err(pm) => return CaseOutcome::Violated(Violation::new(format!("build panicked: {}", pm), case)),
+        Ok(Err(e)) => return CaseOutcome::Violated(Violation::new(format!("a configuration made only of supported constructs does not build: {}", e), case)),
+        Ok(Ok(())) => {}
+    }
+    st.count("look_around_text_after_equal_looking_valid_configuration");
+    match build_both(&twin_modes) {
+        Err(pm) => CaseOutcome::Violated(Violation::new(pm, case)),
+        Ok((u, c, _)) => {
+            if u || c {
+                return CaseOutcome::Violated(Violation::new(
+                    format!(
+                        "the pattern text {:?} contains look-around syntax but builds (build_uncached ok: {}, build ok: {}) after a configuration with the pattern {:?} and a separate lookahead was built",
+                        shown, u, c, cfg.modes[mi].pats[pi].re.to_syntax()
+                    ),
+                    case,
+                ));
+            }
+            st.nontrivial(hash_of(&(&shown, mi, pi)));
+            CaseOutcome::Ok
+        }
+    }
+}
+
 pub fn c15_planted_case(rng: &mut Rng, _i: u64, st: &mut Stats) -> CaseOutcome {
     if rng.chance(1, 12) {
         return c15_shadowed_case(rng, st);
@@ -549,6 +614,9 @@ pub fn c15(tier: Tier) -> i32 {
     res.merge(run_cases(&ctx, 2, n_planted, |rng, i, st| c15_planted_case(rng, i, st)));
     let n_sup = ctx.scale(15_000, 1_000_000);
     res.merge(run_cases(&ctx, 3, n_sup, |rng, i, st| c15_supported_case(rng, i, st)));
+    // stream 5: look-around text right after an equal-looking valid configuration
+    let n_twin = ctx.scale(3_000, 200_000);
+    res.merge(run_cases(&ctx, 5, n_twin, |rng, i, st| c15_display_twin_case(rng, i, st)));
     // stream 4: the repository's own classification (match_test.rs): tu!/tr! rows must be
     // rejected, td! rows must build, through both build paths
     {
@@ -579,7 +647,7 @@ pub fn c15(tier: Tier) -> i32 {
         }));
     }
     let mut report = Report::new(
-        "stream 4: every row of the repository's tests/match_test.rs (td! must build, tu!/tr! must be rejected); stream 1 (in worker subprocesses, so that an abort or stack overflow is observed and attributed): token-level random strings over the regex meta-alphabet (<= 40 bytes, repetition counts with product <= 4096), placed as pattern or lookahead in the first/a later pattern of the first/a later mode; neither build nor build_uncached may panic, both must agree, and a string regex-syntax rejects must not build. stream 2: supported IR with one documented-unsupported construct (anchors, word boundaries, flags, non-greedy repetition, look-around, unknown/valued Unicode classes, syntax errors) planted at a random depth; must be rejected by both build paths (guard: the planted text must still parse to the intended unsupported node or be a syntax error). stream 3: supported-only IR incl. rich bracketed classes must build. Distinct by hash of the pattern text/configuration.",
+        "stream 5: a valid configuration with a pattern P and a separate lookahead is built through the cache, then the same configuration with that pattern written as the text the crate's Display gives for it (P(?=L) / P(?!L), look-around syntax) must be rejected by both build paths; stream 4: every row of the repository's tests/match_test.rs (td! must build, tu!/tr! must be rejected); stream 1 (in worker subprocesses, so that an abort or stack overflow is observed and attributed): token-level random strings over the regex meta-alphabet (<= 40 bytes, repetition counts with product <= 4096), placed as pattern or lookahead in the first/a later pattern of the first/a later mode; neither build nor build_uncached may panic, both must agree, and a string regex-syntax rejects must not build. stream 2: supported IR with one documented-unsupported construct (anchors, word boundaries, flags, non-greedy repetition, look-around, unknown/valued Unicode classes, syntax errors) planted at a random depth; must be rejected by both build paths (guard: the planted text must still parse to the intended unsupported node or be a syntax error). stream 3: supported-only IR incl. rich bracketed classes must build. Distinct by hash of the pattern text/configuration.",
     )
     .floor("soup_builds", 20_000)
     .floor("soup_parses", 2_000)
